@@ -3,6 +3,7 @@ import AmVerif.Lemmas.TopoGraph
 import AmVerif.Lemmas.Converge
 import AmVerif.Lemmas.Settle
 import AmVerif.Lemmas.StaticMode
+import AmVerif.Lemmas.HistMore
 import AmVerif.Model.History
 import AmVerif.Lemmas.World
 import AmVerif.Gen.TabLock
@@ -1487,5 +1488,222 @@ theorem C05_static_statement_false_miss :
     rank_of_entries (by decide), rfl, by decide, rfl, rfl, exEnv_unchanged _ _ _ _, fun _ _ => rfl, by decide,
     fun h => absurd (noMiss_check_of h) (by decide), reloadsReturn_of_check (by decide),
     noRewire_of_check (by decide), staleAt_of_check (by decide), by decide, by decide⟩
+
+/-! ## Histories with `clear` (`Lemmas/HistMore.lean`)
+
+After `clear` the cache is empty, the reloader's graph keeps its (typed) nodes, and the registrations
+that were still in the channel name entries that are gone: the invariant `Pending` of the history
+theorems above ("every registration in the channel is `MsgGood`: its key IS cached …") is false. It is
+replaced by `PendingC`: the LAST registration of every key in the channel is good IF its key is cached
+(`MsgGoodIf`, `LastGood`). A stale registration cannot break `Settled`: `insertAsset` replaces the
+dependencies of the node, so the last message wins (`settledBut_drainC`) — and a key can only be cached
+again (with a dynamic cell) by a load that misses, which sends a NEW registration after the stale one.
+`clear` itself needs no hypothesis. -/
+
+/-- **Histories with `clear`** (partial): `C05_static_history_partial` extended with `.api .clear` steps.
+From the empty cache and an empty reloader, under ONE environment without fault plan; the history is
+any list of API operations, `hot_reload()`s, batches of events and `enhance_hot_reloading`s such that
+every step satisfies `StepOKC` in the state it starts from:
+* `clear`: no hypothesis (registrations may be in the channel, events may be pending, any mode);
+* a load satisfies `LoadOKC` = `CleanLoad`, `NoProbedKeyFilled` and `NoLivePendingKeyFilled` — the third
+  is `NoPendingKeyFilled` asked only of the registrations whose key is cached: implied by it, and the
+  only form that holds after a `clear` (`C05_clear_old_hypothesis_too_strong`); necessary
+  (`C05_load_pending_false_fill`);
+* `get_or_insert`: the same two no-fill hypotheses; `remove` / `take`: `NoDependentOnC` (`NoDependentOn`
+  with the part on the channel asked only of cached keys other than the removed one; necessary:
+  `C05_remove_breaks_settled`, `C05_remove_pending_breaks_settled`); the read-only operations: nothing;
+* reloader steps: `PassOK` as in `C05_static_history_partial`.
+Every `StaticHist` is such a history (`C05_history_with_clear_extends`). Not covered here: `load_owned`
+(`C05_history_with_load_owned_partial`), edits.
+
+Conclusion: the one of `C05_static_history_partial`, after EVERY reloader step. -/
+theorem C05_history_with_clear_partial (env : Env) (hS : env.Steady) (fuel : Nat) (h : List (Env × HOp))
+    (hh : HistP (StepOKC env fuel) env fuel h ({}, {})) :
+    ∀ h1 op h2, h = h1 ++ (env, op) :: h2 → op.isReloader = true →
+      Settled env fuel (runH fuel (h1 ++ [(env, op)]) ({}, {})).1 (runH fuel (h1 ++ [(env, op)]) ({}, {})).2.graph ∧
+      GraphOK (runH fuel (h1 ++ [(env, op)]) ({}, {})).2.graph ∧
+      (runH fuel (h1 ++ [(env, op)]) ({}, {})).1.out = [] ∧
+      (runH fuel (h1 ++ [(env, op)]) ({}, {})).2.dead = false ∧
+      ((runH fuel (h1 ++ [(env, op)]) ({}, {})).2.static_ = true →
+        (runH fuel (h1 ++ [(env, op)]) ({}, {})).2.toReload = []) ∧
+      (op = .enhance → (runH fuel (h1 ++ [(env, op)]) ({}, {})).2.static_ = true) := by
+  intro h1 op h2 e hop
+  obtain ⟨j1, j2, j3, j4⟩ := (histC_settled hS hh (SInvC.init env fuel)).2 h1 op h2 e hop
+  refine ⟨j1, C05_history_keeps_graphOK fuel _ _ graphOK_nil, j2, j3.live, j3.idle, ?_⟩
+  intro eo
+  subst eo
+  rw [runH_append]
+  generalize runH fuel h1 ({}, {}) = x1 at j4
+  obtain ⟨s1, r1⟩ := x1
+  exact enhance_static_after env fuel s1 r1 j4.live
+
+/-- `C05_history_with_clear_partial` contains `C05_static_history_partial` (hence `C05_history_settled_partial`) -/
+theorem C05_history_with_clear_extends (env : Env) (fuel : Nat) (h : List (Env × HOp)) (x : St × RSt)
+    (hh : StaticHist env fuel h x) : HistP (StepOKC env fuel) env fuel h x :=
+  hh.toP.mono (fun _ _ => StepOK.toC)
+
+/-- **Last message wins** (the drain lemma behind the theorem): if the last registration of every key
+in the channel is good if its key is cached, and everything registered and cached is settled except
+the keys with a registration in the channel, then after the reloader has taken the channel — stale
+registrations and `Clear`s included — everything registered and cached is settled. -/
+theorem C05_last_registration_wins (env : Env) (hS : env.Steady) (fuel : Nat) (s : St) (r : RSt)
+    (hlast : LastGood env fuel s s.out) (hbut : SettledBut env fuel s r.graph s.out) :
+    Settled env fuel (processMsgs s r).1 (processMsgs s r).2.graph :=
+  PendingC.drain hS ⟨hlast, hbut⟩
+
+/-- `clear` keeps the invariant whatever is in the channel and in the graph, without hypothesis -/
+theorem C05_clear_keeps_invariant (env : Env) (hS : env.Steady) (fuel : Nat) (x : St × RSt) (hx : SInvC env fuel x) :
+    SInvC env fuel (hstep fuel (env, .api .clear) x) ∧
+    (∀ k, (hstep fuel (env, .api .clear) x).1.lookup k = none) ∧
+    (hstep fuel (env, .api .clear) x).2 = x.2 ∧
+    (hstep fuel (env, .api .clear) x).1.out = if env.hasReloader then x.1.out ++ [.clear] else x.1.out :=
+  ⟨hx.step hS _ StepOKC.clear, fun k => step_clear_lookup env fuel x.1 k, rfl, step_clear_out env fuel x.1⟩
+
+/-! ### Non-vacuity -/
+
+/-- `load b` (loads `e`), `clear` — the two registrations and the `Clear` are in the channel, nothing
+is cached —, `load b` again, `hot_reload()` -/
+def exClearHistory : List (Env × HOp) :=
+  [(exEnv [1, 0] [10], .api (.load kb)), (exEnv [1, 0] [10], .api .clear),
+   (exEnv [1, 0] [10], .api (.load kb)), (exEnv [1, 0] [10], .hotReload)]
+
+theorem exClearHistory_ok : HistP (StepOKC (exEnv [1, 0] [10]) 10) (exEnv [1, 0] [10]) 10 exClearHistory ({}, {}) :=
+  .cons _ _ _ (StepOKC.load (loadOKC_of_check (by decide)))
+    (.cons _ _ _ StepOKC.clear
+      (.cons _ _ _ (StepOKC.load (loadOKC_of_check (by decide)))
+        (.cons _ _ _ (StepOK.of_idle rfl (by decide)).toC (.nil _))))
+
+/-- **Non-vacuity** of `C05_history_with_clear_partial`, the channel NOT drained before the `clear` -/
+example :
+    Settled (exEnv [1, 0] [10]) 10 (runH 10 exClearHistory ({}, {})).1 (runH 10 exClearHistory ({}, {})).2.graph ∧
+    (runH 10 exClearHistory ({}, {})).1.out = [] :=
+  have h := C05_history_with_clear_partial (exEnv [1, 0] [10]) (exEnv_steady _ _) 10 exClearHistory exClearHistory_ok
+    [(exEnv [1, 0] [10], .api (.load kb)), (exEnv [1, 0] [10], .api .clear), (exEnv [1, 0] [10], .api (.load kb))]
+    .hotReload [] rfl rfl
+  ⟨h.1, h.2.2.1⟩
+
+/-- what happens in that history: after the `clear` nothing is cached and three messages are in the
+channel; before the `hot_reload()` there are five (two stale registrations, `Clear`, two new ones); at
+the end `e` and `b` are cached again (new entries) and registered. -/
+example :
+    (runH 10 (exClearHistory.take 2) ({}, {})).1.map = [] ∧
+    (runH 10 (exClearHistory.take 2) ({}, {})).1.out =
+      [.addAsset ke [.file "e" "s"], .addAsset kb [.file "b" "s", .asset ke], .clear] ∧
+    (runH 10 (exClearHistory.take 3) ({}, {})).1.out.length = 5 ∧
+    (runH 10 exClearHistory ({}, {})).1.lookup kb = some ⟨.int 11, true, 0, false, 3⟩ ∧
+    settledB (exEnv [1, 0] [10]) 10 (runH 10 exClearHistory ({}, {})).1 (runH 10 exClearHistory ({}, {})).2.graph = true := by
+  decide
+
+/-- **The hypothesis of the earlier history theorems is too strong after a `clear`**: in that history the
+second `load b` violates `NoPendingKeyFilled` (it fills `e`, which the STALE registration of `b` lists
+while `e` is absent), hence `LoadOK`; it satisfies `LoadOKC`. -/
+theorem C05_clear_old_hypothesis_too_strong :
+    ¬ LoadOK (exEnv [1, 0] [10]) 10 (runH 10 (exClearHistory.take 2) ({}, {})).1
+        (runH 10 (exClearHistory.take 2) ({}, {})).2 kb ∧
+    LoadOKC (exEnv [1, 0] [10]) 10 (runH 10 (exClearHistory.take 2) ({}, {})).1
+        (runH 10 (exClearHistory.take 2) ({}, {})).2 kb :=
+  ⟨fun h => absurd (noPendingKeyFilled_check_of h.noFillPending) (by decide), loadOKC_of_check (by decide)⟩
+
+/-- loaders whose dependency set depends on the cache: `x` returns `0`; `r` probes `x` with `get_cached`:
+absent → `1`; present → reads `f.s` and returns `2` -/
+def lwProg (id : String) : Prog :=
+  if id = "x" then .ret (.int 0)
+  else if id = "r" then .getCached ⟨0, "x"⟩ fun r =>
+    match r with
+    | none => .ret (.int 1)
+    | some _ => .read "f" "s" fun _ => .ret (.int 2)
+  else .panic
+
+def lwEnv : Env :=
+  { read := fun _ id _ => .error ⟨true, "NotFound", id⟩
+    readDir := fun _ _ => .ok []
+    types := fun _ => { hot := true, prog := lwProg }
+    hasReloader := true }
+
+theorem lwEnv_steady : lwEnv.Steady := ⟨fun _ _ _ _ => rfl, fun _ _ _ => rfl, fun _ _ => rfl⟩
+
+def kx : Key := ⟨0, "x"⟩
+def kr : Key := ⟨0, "r"⟩
+
+/-- `load x`, `load r` (registered with `{x, f.s}`, value `2`), `clear`, `load r` (registered with `{x}`,
+value `1`), `hot_reload()`: two DIFFERENT registrations of `r` are in the channel when it is drained -/
+def lwHistory : List (Env × HOp) :=
+  [(lwEnv, .api (.load kx)), (lwEnv, .api (.load kr)), (lwEnv, .api .clear), (lwEnv, .api (.load kr)),
+   (lwEnv, .hotReload)]
+
+theorem lwHistory_ok : HistP (StepOKC lwEnv 10) lwEnv 10 lwHistory ({}, {}) :=
+  .cons _ _ _ (StepOKC.load (loadOKC_of_check (by decide)))
+    (.cons _ _ _ (StepOKC.load (loadOKC_of_check (by decide)))
+      (.cons _ _ _ StepOKC.clear
+        (.cons _ _ _ (StepOKC.load (loadOKC_of_check (by decide)))
+          (.cons _ _ _ (StepOK.of_idle rfl (by decide)).toC (.nil _)))))
+
+/-- **A stale registration with other dependencies, still in the channel, is harmless**: `load r; clear;
+load r` with different dependency sets between the two registrations, both drained by the same
+`hot_reload()` — the node of `r` ends with the dependencies of the LAST one, and `r` is settled. -/
+example :
+    Settled lwEnv 10 (runH 10 lwHistory ({}, {})).1 (runH 10 lwHistory ({}, {})).2.graph ∧
+    (runH 10 (lwHistory.take 4) ({}, {})).1.out =
+      [.addAsset kx [], .addAsset kr [.asset kx, .file "f" "s"], .clear, .addAsset kr [.asset kx]] ∧
+    ((runH 10 lwHistory ({}, {})).2.graph.get (.asset kr)).map (·.deps) = some [.asset kx] ∧
+    (runH 10 lwHistory ({}, {})).1.lookup kr = some ⟨.int 1, true, 0, false, 2⟩ :=
+  have h := C05_history_with_clear_partial lwEnv lwEnv_steady 10 lwHistory lwHistory_ok
+    [(lwEnv, .api (.load kx)), (lwEnv, .api (.load kr)), (lwEnv, .api .clear), (lwEnv, .api (.load kr))]
+    .hotReload [] rfl rfl
+  ⟨h.1, by decide, by decide, by decide⟩
+
+/-! ### The weakened hypotheses are still necessary -/
+
+/-- **`NoLivePendingKeyFilled` is necessary.** `load q` (it probes `x`, finds nothing, returns `1`); its
+registration is still in the channel and `q` is cached. Then `load x`: a clean load, and nothing
+registered is concerned (`NoProbedKeyFilled` holds: the graph is empty) — but it fills the key the
+pending registration of the cached `q` lists. After `hot_reload()` `q` is registered and holds `1`
+although re-evaluating its loader returns `2`. -/
+theorem C05_load_pending_false_fill :
+    ∃ (env : Env) (fuel : Nat) (x : St × RSt) (key : Key),
+      env.Steady ∧ SInvC env fuel x ∧ CleanLoad env fuel x.1 key ∧
+      NoProbedKeyFilled x.1 (step env fuel x.1 (.load key)).1 x.2.graph ∧
+      ¬ NoLivePendingKeyFilled x.1 (step env fuel x.1 (.load key)).1 ∧
+      StaleAt env fuel (runH fuel [(env, .api (.load key)), (env, .hotReload)] x) ⟨0, "q"⟩ ∧
+      ¬ Settled env fuel (runH fuel [(env, .api (.load key)), (env, .hotReload)] x).1
+          (runH fuel [(env, .api (.load key)), (env, .hotReload)] x).2.graph := by
+  have hq : HistP (StepOKC cxEnv 10) cxEnv 10 [(cxEnv, .api (.load ⟨0, "q"⟩))] ({}, {}) :=
+    .cons _ _ _ (StepOKC.load (loadOKC_of_check (by decide))) (.nil _)
+  have hinv := (histC_settled cxEnv_steady hq (SInvC.init cxEnv 10)).1
+  have hst : StaleAt cxEnv 10 (runH 10 [(cxEnv, .api (.load ⟨0, "x"⟩)), (cxEnv, .hotReload)]
+      (runH 10 [(cxEnv, .api (.load ⟨0, "q"⟩))] ({}, {}))) ⟨0, "q"⟩ := staleAt_of_check (by decide)
+  exact ⟨cxEnv, 10, runH 10 [(cxEnv, .api (.load ⟨0, "q"⟩))] ({}, {}), ⟨0, "x"⟩, cxEnv_steady, hinv, by decide,
+    noProbedKeyFilled_of_check (by decide),
+    fun h => absurd (noLivePendingKeyFilled_check_of h) (by decide), hst, hst.not_settled⟩
+
+/-- **The part of `NoDependentOnC` on the channel is necessary**: `load b` (which loads `e`), the two
+registrations still in the channel, `remove e`: the graph is empty, so nothing REGISTERED depends on `e`
+— but the pending registration of the cached `b` lists it. After `hot_reload()` re-evaluating `b` misses
+`e`: it is not a tracked hit-only run, `b` is not settled. -/
+theorem C05_remove_pending_breaks_settled :
+    ∃ (env : Env) (fuel : Nat) (x : St × RSt) (key : Key),
+      env.Steady ∧ SInvC env fuel x ∧
+      (∀ k node c, x.2.graph.get (.asset k) = some node → node.typed = true → x.1.lookup k = some c → c.dyn = true →
+        k ≠ key → Dep.asset key ∉ node.deps) ∧
+      ¬ NoDependentOnC x.1 x.2.graph key ∧
+      ¬ Settled env fuel (runH fuel [(env, .api (.remove key)), (env, .hotReload)] x).1
+          (runH fuel [(env, .api (.remove key)), (env, .hotReload)] x).2.graph := by
+  have hb : HistP (StepOKC (exEnv [1, 0] [10]) 10) (exEnv [1, 0] [10]) 10 [(exEnv [1, 0] [10], .api (.load kb))] ({}, {}) :=
+    .cons _ _ _ (StepOKC.load (loadOKC_of_check (by decide))) (.nil _)
+  have hinv := (histC_settled (exEnv_steady _ _) hb (SInvC.init _ 10)).1
+  have hbad : ¬ Settled (exEnv [1, 0] [10]) 10
+      (runH 10 [(exEnv [1, 0] [10], .api (.remove ke)), (exEnv [1, 0] [10], .hotReload)]
+        (runH 10 [(exEnv [1, 0] [10], .api (.load kb))] ({}, {}))).1
+      (runH 10 [(exEnv [1, 0] [10], .api (.remove ke)), (exEnv [1, 0] [10], .hotReload)]
+        (runH 10 [(exEnv [1, 0] [10], .api (.load kb))] ({}, {}))).2.graph :=
+    not_settled_of_miss (k := kb) (by decide)
+  refine ⟨exEnv [1, 0] [10], 10, runH 10 [(exEnv [1, 0] [10], .api (.load kb))] ({}, {}), ke, exEnv_steady _ _, hinv,
+    fun k node c hg => (by cases hg), ?_, hbad⟩
+  intro hdep
+  have hh : HistP (StepOKC (exEnv [1, 0] [10]) 10) (exEnv [1, 0] [10]) 10
+      [(exEnv [1, 0] [10], .api (.remove ke)), (exEnv [1, 0] [10], .hotReload)]
+      (runH 10 [(exEnv [1, 0] [10], .api (.load kb))] ({}, {})) :=
+    .cons _ _ _ (Or.inr hdep) (.cons _ _ _ (StepOK.of_idle rfl (by decide)).toC (.nil _))
+  exact hbad ((histC_settled (exEnv_steady _ _) hh hinv).2 [(exEnv [1, 0] [10], .api (.remove ke))] .hotReload [] rfl rfl).1
 
 end AmVerif.Props.C05
